@@ -159,6 +159,18 @@ func (g *vfGen) genDets() {
 			}
 		}
 		seeds = append(seeds, []byte{}, g.bytes(8), g.bytes(64))
+		seeds = append(seeds, []byte(" "), []byte("\n"), []byte(" \t\r\n\x0c  "), []byte("\xef\xbb\xbf"), []byte("\xef\xbb\xbf \n"),
+			[]byte("#!"), []byte("#! "), []byte("#!\n"), []byte("#!  \t \r\n"), []byte("#!\t\nx"), []byte("<"), []byte("<?"), []byte("<!"), []byte("<!--"))
+		for _, sh := range fx.Signatures[name] {
+			b, _ := hex.DecodeString(sh)
+			lo, up := bytes.ToLower(b), bytes.ToUpper(b)
+			if !bytes.Equal(lo, b) {
+				seeds = append(seeds, lo, append(append([]byte{}, lo...), ' ', 'x', '>'))
+			}
+			if !bytes.Equal(up, b) {
+				seeds = append(seeds, up, append(append([]byte{}, up...), ' ', 'x', '>'))
+			}
+		}
 		seeds = append(seeds, directed[name]...)
 		// kind-specific placements: the combinators compare positions (an XML local name must not be at
 		// index 0 and must precede the namespace; both are searched in the first 512 bytes after white space;
